@@ -69,6 +69,9 @@ def gen_spec(rng, cfg):
         if r < 0.27:
             # non-ASCII text in a key: a character of the basic plane, or one beyond it (U+1D54F, U+1F600)
             return "%s%s%s" % (nm, rng.choice(["\u00e9", "\U0001d54f", "\U0001f600", "\u4e2d"]), salt)
+        if r < 0.33:
+            # characters that print escaped inside a quoted key: backslash, newline, tab
+            return "%s%s%s" % (nm, rng.choice(["\\", "\n", "\t", "\\n"]), salt)
         return "%s%s" % (nm, salt)
 
     def leaf():
